@@ -4,7 +4,7 @@ import ast
 from ..core import (AnalysisError, dotted, unparse, calls_in, call_name,
                     walk_no_defs, parent, ancestors, ClassInfo, FuncInfo)
 from ..flow import SeqFlow, RETURN, RAISE, guards_at, flatten_guards, \
-    PathExplosion
+    PathExplosion, enclosing_trys, handler_names
 from ..constfold import try_fold
 from ..mutate import Mutant, in_func
 
@@ -1048,17 +1048,141 @@ def check_closing_iterator(prog, cls, call, deferred):
     return problems
 
 
+# --------------------------------------------------------------------- R6
+def rule_r6(prog, res):
+    res.rule('R6', 'no listener runs between the Content-Length computation '
+             'and the return of the body')
+    n = 0
+    for name in ('handle_error', 'handle_rpc', 'handle_wsdl_request'):
+        f = _m(prog, name)
+        stores = _cl_stores(f.node)
+        rets = [r for r in walk_no_defs(f.node) if isinstance(r, ast.Return)]
+        for st in stores:
+            later = [r.lineno for r in rets if r.lineno > st.lineno]
+            if not later:
+                continue
+            end = min(later)
+            n += 1
+            fires = [c for c in calls_in(f.node)
+                     if call_name(c) == 'fire_event' and
+                     st.lineno < c.lineno <= end]
+            where = '%s:%d' % (f.module.relpath, st.lineno)
+            res.ob('R6', where, '%s: %d listener event(s) between the '
+                   'Content-Length store (line %d) and the return (line %d)'
+                   % (name, len(fires), st.lineno, end),
+                   'VIOLATED' if fires else 'ok')
+            for c in fires:
+                ev = unparse(c.args[0]) if c.args else '?'
+                res.finding('R6', 'WsgiApplication.%s|event-after-length|%s'
+                            % (name, ev),
+                            '%s:%d' % (f.module.relpath, c.lineno),
+                            '%s fires %s after Content-Length was computed: '
+                            'a listener that rewrites ctx.out_string (the '
+                            'documented use of that hook) makes the header '
+                            'disagree with the bytes that are sent' % (
+                                name, ev))
+    res.floor('R6', 'Content-Length stores followed by a return', n, 3)
+
+
+# --------------------------------------------------------------------- R7
+BROAD = ('Exception', 'BaseException', 'Fault')
+
+
+def rule_r7(prog, res):
+    res.rule('R7', 'the request-too-long fault raised while the lazy body '
+             'is consumed is not swallowed by the document parsers')
+    n = 0
+    for c in prog.all_classes():
+        if not c.module.name.startswith('spyne.protocol'):
+            continue
+        f = c.methods.get('create_in_document')
+        if f is None:
+            continue
+        for node in walk_no_defs(f.node):
+            uses = None
+            if isinstance(node, ast.Call) and call_name(node) in (
+                    'join', 'list', 'tuple', 'next', 'feed', 'fromstring',
+                    'parse') and any('in_string' in unparse(a)
+                                     for a in node.args):
+                uses = node
+            if isinstance(node, (ast.For, ast.comprehension)) and \
+                    'in_string' in unparse(node.iter):
+                uses = node.iter
+            if uses is None:
+                continue
+            n += 1
+            where = '%s:%d' % (f.module.relpath, uses.lineno)
+            bad = None
+            for t, region in enclosing_trys(uses, stop=f.node):
+                if region != 'body':
+                    continue
+                for h in t.handlers:
+                    names = handler_names(h)
+                    broad = not names or any(x in BROAD for x in names)
+                    if not broad:
+                        continue
+                    reraises = any(isinstance(x, ast.Raise) and x.exc is None
+                                   for x in ast.walk(h))
+                    if not reraises:
+                        bad = (h, names or ['(bare)'])
+            res.ob('R7', where, '%s: the body is consumed by %s %s' % (
+                f.qualname, unparse(uses)[:40],
+                'inside a handler for %s' % bad[1] if bad else
+                'under handlers for parse errors only'),
+                'VIOLATED' if bad else 'ok')
+            if bad:
+                res.finding('R7', '%s|too-long-swallowed|%s' % (
+                    f.qualname, ','.join(bad[1])),
+                    '%s:%d' % (f.module.relpath, bad[0].lineno),
+                    '%s consumes ctx.in_string (a lazy reader that raises '
+                    'RequestTooLongError once max_content_length is '
+                    'exceeded) inside "except %s", which replaces that fault '
+                    'with the parser\'s own: an over-long body is answered '
+                    'with a 400 decode error instead of 413, after the '
+                    'parser error path ran' % (f.qualname,
+                                               ', '.join(bad[1])))
+    res.floor('R7', 'sites consuming ctx.in_string in create_in_document',
+              n, 5)
+
+
 def run(prog, res, tier):
     res.run_rule(rule_r1, prog, res)
     res.run_rule(rule_r2, prog, res)
     res.run_rule(rule_r3, prog, res, tier)
     res.run_rule(rule_r4, prog, res)
     res.run_rule(rule_r5, prog, res)
+    res.run_rule(rule_r6, prog, res)
+    res.run_rule(rule_r7, prog, res)
 
 
 _W = 'spyne/server/wsgi.py'
 
 MUTANTS = [
+    Mutant('wsgi-return-after-length', 'R6', 'fire', _W,
+           in_func('WsgiApplication.handle_rpc',
+                   r"(        self\.event_manager\.fire_event\('wsgi_return', "
+                   r"p_ctx\)\n\n)(.*?)(        start_response\(p_ctx\."
+                   r"transport\.resp_code,)",
+                   lambda m_: m_.group(2) + m_.group(1) + m_.group(3),
+                   regex=True), 'event-after-length'),
+    Mutant('wsgi-exception-after-length', 'R6', 'fire', _W,
+           in_func('WsgiApplication.handle_error',
+                   r"(        self\.event_manager\.fire_event\('wsgi_exception"
+                   r"', p_ctx\)\n\n)(.*?)(        start_response\()",
+                   lambda m_: m_.group(2) + m_.group(1) + m_.group(3),
+                   regex=True), 'event-after-length'),
+    Mutant('json-parser-catches-everything', 'R7', 'fire',
+           'spyne/protocol/json.py',
+           in_func('JsonDocument.create_in_document',
+                   "except (JSONDecodeError, UnicodeDecodeError, "
+                   "LookupError) as e:", "except Exception as e:"),
+           'too-long-swallowed'),
+    Mutant('json-parser-catches-valueerror', 'R7', 'benign',
+           'spyne/protocol/json.py',
+           in_func('JsonDocument.create_in_document',
+                   "except (JSONDecodeError, UnicodeDecodeError, "
+                   "LookupError) as e:",
+                   "except (ValueError, LookupError) as e:"), None),
     # R1
     Mutant('sr-dropped-in-error', 'R1', 'fire', _W,
            in_func('WsgiApplication.handle_error',
@@ -1104,11 +1228,11 @@ MUTANTS = [
                    'str(len(p_ctx.out_string))'), 'handle_error'),
     Mutant('cl-then-rebound', 'R2', 'fire', _W,
            in_func('WsgiApplication.handle_error',
-                   "        self.event_manager.fire_event('wsgi_exception', "
-                   "p_ctx)",
-                   "        self.event_manager.fire_event('wsgi_exception', "
-                   "p_ctx)\n        p_ctx.out_string = [b'<!-- -->'] + "
-                   "p_ctx.out_string"), 'rebound'),
+                   "        start_response(p_ctx.transport.resp_code,",
+                   "        p_ctx.out_string = [b'<!-- -->'] + "
+                   "p_ctx.out_string\n"
+                   "        start_response(p_ctx.transport.resp_code,"),
+           'rebound'),
     Mutant('stale-cl-kept', 'R2', 'fire', _W,
            in_func('WsgiApplication.handle_rpc',
                    "                del p_ctx.transport.resp_headers["
